@@ -193,14 +193,20 @@ From WG Require Import Lib.NumpySem Lib.HydroShock.
 From GenC05 Require Import HydroLTE.
 Local Open Scope R_scope.
 %(defs)s
-Ltac red := cbv beta iota zeta delta [matchingLTE matchTail vpvmAndvpovm gammaSq boostVelocity
+Ltac redx := cbv beta iota zeta delta [matchingLTE matchTail vpvmAndvpovm gammaSq boostVelocity
   fst snd csqHighT csqLowT wHighT wLowT pHighT pLowT eHighT eLowT alN Tnucl invMap
   t_getVp t_alpha_shooting t_alpha_initial t_solveAlpha_bounds t_cs2 t_cb2 t_cb t_cs t_alN
   t_psiN t_mu t_nu t_vJ %(envs)s].
-Ltac ev := red;
+Ltac killmin := repeat match goal with
+  | |- context [Rmin ?a ?b] => first [ rewrite (Rmin_left a b) by interval with (i_prec 90)
+                                     | rewrite (Rmin_right a b) by interval with (i_prec 90) ]
+  | |- context [Rmax ?a ?b] => first [ rewrite (Rmax_left a b) by interval with (i_prec 90)
+                                     | rewrite (Rmax_right a b) by interval with (i_prec 90) ]
+  end.
+Ltac ev := redx; killmin;
   repeat match goal with |- context [Req_EM_T ?a ?b] =>
     destruct (Req_EM_T a b) as [EQ|_];
-    [exfalso; assert (NE : a - b <> 0) by interval with (i_prec 90); lra|] end;
+    [exfalso; assert (NE : a - b <> 0) by interval with (i_prec 90); apply NE; lra|] end;
   cbv beta iota zeta delta [negb fst snd]; interval with (i_prec 90).
 """
 
@@ -230,8 +236,16 @@ def certified(ctx, proved):
             orig_root = H.root
 
             def root(f, x0, *a, **kw):
-                captured.append((f, np.array(x0, dtype=float)))
-                return orig_root(f, x0, *a, **kw)
+                # the closure must be evaluated while the solver runs: after the solve the
+                # method rebinds `vp`, which the closure reads
+                sol = orig_root(f, x0, *a, **kw)
+                tpm = [float(t) for t in hy._inverseMappingT(sol.x)]
+                pts = [sol.x, hy._mappingT([tpm[0] * rng.uniform(0.97, 1.03),
+                                            tpm[1] * rng.uniform(0.96, 1.04)])]
+                vals = [([float(x[0]), float(x[1])], [float(y) for y in f(
+                    [float(x[0]), float(x[1])])]) for x in pts]
+                captured.append((f, vals, [float(t) for t in S.cells(f)["Tpm0"]]))
+                return sol
             H.root = root
             try:
                 vp, vm, Tp, Tm = hy.matchDeflagOrHyb(vw)
@@ -240,12 +254,8 @@ def certified(ctx, proved):
             if not captured or captured[-1][0].__name__ != "matching":
                 ctx.broken.append("correspondence: `matching` not handed to scipy root")
                 continue
-            f = captured[-1][0]
-            Tpm0 = S.cells(f)["Tpm0"]
-            pts = [hy._mappingT([Tp, Tm]), hy._mappingT([Tp * 1.03, Tm * 0.98]),
-                   hy._mappingT([Tp * 0.99, Tm * 1.04])]
-            for x in pts:
-                x = [float(x[0]), float(x[1])]
+            f, vals, Tpm0 = captured[-1]
+            for x, got in vals:
                 tp, tm = [float(t) for t in hy._inverseMappingT(x)]
                 name = "e%d" % k
                 k += 1
@@ -253,7 +263,6 @@ def certified(ctx, proved):
                 env = S.coq_env(spec) % dict(alN=q(hy.template.alN))
                 env = env.replace("(fun x => x))", "(fun _ => (%s, %s)))" % (q(tp), q(tm)))
                 defs.append("Definition %s := %s." % (name, env))
-                got = f(x)
                 for i, proj in ((0, "fst"), (1, "snd")):
                     goals.append((goal("%s (matchingLTE %s %s (%s, %s) (0, 0))" % (
                         proj, name, q(vw), q(Tpm0[0]), q(Tpm0[1])), got[i],
@@ -274,7 +283,7 @@ def certified(ctx, proved):
                 ctx.count("certified_matchTail")
     # template: getVp, the two alpha forms, the bounds of solveAlpha
     tdefs = []
-    for j in range(ctx.n(3, 10)):
+    for j in range(ctx.n(2, 10)):
         psiN = 1 - 0.5 * rng.random()
         cs2 = 1 / 4 + (1 / 3 - 1 / 4) * rng.random()
         spec = dict(kind="template", psiN=round(psiN, 4), alN=round((1 - psiN) / 3 +
@@ -289,7 +298,7 @@ def certified(ctx, proved):
                      "(fun _ => 0) (fun _ _ => 0) (fun _ _ => 0)." % (
                          name, q(tm.cs2), q(tm.cb2), q(tm.cb), q(tm.cs), q(tm.alN), q(tm.psiN),
                          q(tm.mu), q(tm.nu), q(tm.vJ), q(tm.Tnucl)))
-        for _ in range(3):
+        for _ in range(ctx.n(2, 3)):
             vmv = rng.uniform(0.2, float(tm.cb))
             al = rng.uniform(0.01, 0.3)
             for br in (-1, 1):
@@ -322,7 +331,7 @@ def certified(ctx, proved):
             vmv = br[-1][1][0][0]
             c = "true" if cons else "false"
             for proj, val in (("fst (fst (fst (%s)))", vmv), ("snd (fst (%s))", alMin),
-                              ("snd (%s)", alMax)):
+                              ("snd (%s)", alMax))[ctx.n(1, 0):ctx.n(2, 3)]:
                 goals.append((goal(proj % ("t_solveAlpha_bounds %s %s %s" % (name, q(vw), c)),
                                    val), dict(fn="solveAlpha_bounds", spec=spec, vw=vw,
                                               constraint=cons)))
@@ -330,7 +339,7 @@ def certified(ctx, proved):
     if not proved:
         return
     hdr = EVAL_HDR % dict(defs="\n".join(defs + tdefs), envs=" ".join(names))
-    nfiles = 3
+    nfiles = 8
     import subprocess
     procs = []
     for j in range(nfiles):
@@ -365,6 +374,7 @@ def template_decisions(ctx, proved, tspecs):
 From WG Require Import Lib.NumpySem Lib.HydroShock.
 From GenC05 Require Import HydroLTE Props_C05.
 Local Open Scope R_scope.
+%s
 Ltac fields := cbv beta iota zeta delta [t_shootingInLTE t_alN t_psiN t_mu t_nu t_vJ t_cb
   maxAl100 shooting solveAlphaRoot rootLTE %s] in *.
 """
@@ -431,7 +441,7 @@ Ltac fields := cbv beta iota zeta delta [t_shootingInLTE t_alN t_psiN t_mu t_nu 
         goals.append("Goal t_findvwLTE %s = %s.\nProof. %s Qed." % (name, q(want), prf))
     if not proved or not goals:
         return
-    text = hdr % " ".join(names) + "\n".join(defs) + "\n" + "\n".join(goals) + "\n"
+    text = hdr % ("\n".join(defs), " ".join(names)) + "\n".join(goals) + "\n"
     p = ctx.write("Cases/Template.v", text)
     ok, out, err = ctx.coqc(p, timeout=300)
     if not ok:
@@ -607,7 +617,8 @@ def direct(ctx, proved):
                 ctx.sample(dict(eos=spec, vwLTE=res))
     # the repo's own tests run with atol = 1e-6: diagnostics, gated only when listed
     cand = []
-    for spec in [s for s in sp if s["kind"] == "bag"][:ctx.n(55, 175)]:
+    diag = [s for s in sp if s["kind"] == "bag"]
+    for spec in diag[1:48:ctx.n(4, 1)] + diag[48:ctx.n(50, 175)]:
         try:
             fails, _mc = check_lte(ctx, spec, rtol=1e-6, atol=1e-6)
         except Exception:
